@@ -54,6 +54,21 @@ CHECKS = {
   text="The lock discipline the code declares is decided for every access: 15 guarded fields are only touched with their lock held (writes exclusively) outside construction and three reasoned exceptions; shared registries keep their concurrency-safe types and counters are sync/atomic-only; request fields read without the mutex are written only at construction; ClientConn.codec only through atomic.Value; the load balancer's published slice is never written through.",
   note="This is not a happens-before analysis: never-locked state (client.codec/keyspace, Cluster state confined to one goroutine) and ordering by channels/WaitGroups are not decided; a dynamic race detector is the tool for those.",
   ref="DESIGN.md §4 C18"),
+ "C02": dict(
+  technique="static analysis: ownership inventories (who may access the pending table / free list / stream-id header field), structural checks of the allocate/release protocol on SSA (select/send/LoadAndDelete pairing, dominance), value provenance of stream ids and of frames handed to writers",
+  text="The ownership discipline that makes mis-routing impossible is decided: only pendingRequests touches the pending table and free list; an id taken from the free list is the key of the stored request and the returned id, it goes back only when LoadAndDelete removed that entry, and the list is filled with 0..max-1 at capacity max; the backend stream id is written into a request's frame only by the sender object in the function that encodes it, from the id allocated for that send; a request's client, stream and version come from the frame it was built from and every reply uses them; re-prepare frames are private copies.",
+  note="Trusted: sync.Map and channel semantics. Not covered: interleavings themselves.",
+  ref="DESIGN.md §4 C02"),
+ "C03": dict(
+  technique="static analysis: field-write inventory over frame structures, provenance of the encoded frame objects, struct-literal argument agreement for session selection, plus the override-guard simulation and codec layout signatures shared with C12/C11",
+  text="Decided: nothing in proxy/proxycore writes body bytes or version/flags/opcode/direction of an existing frame, stream ids only in the backend sender and the reply function; a request hands the writer exactly what the override decision returned (the received raw frame unless an override applies) and raw frames are written with EncodeRawFrame; the backend's raw reply object is what is written to the client; the backend session has the client's version and compression; the single re-encoding path keeps header and decoded body and uses codecs with the protocol layout.",
+  note="Trusted: library frame codecs and compressors. Byte equality itself is not executed; ownership and provenance are decided.",
+  ref="DESIGN.md §4 C03"),
+ "C08": dict(
+  technique="static analysis: sibling struct-literal agreement (cache wiring), property simulation of the backend reply handler with opcode bound (effect ordering), key-function agreement, folded re-prepare decision, dominance-guarded byte-access inventory",
+  text="Decided: every pooled connection is created with the shared prepared cache (all connPool literals, connect(), ConnectClient, both proxy session configs, both pool creations of a session); on a connection with a cache every RESULT passes the cache update before delivery and every ERROR passes the UNPREPARED interception; store and load use the same key function of the backend's id; a re-prepare's outcome re-executes (error => next host, else same host); raw body bytes are read directly only when the header says they are not compressed; re-prepare frames are private copies.",
+  note="Not covered: backend prepared state, LRU eviction, version/compression of the replayed PREPARE frame.",
+  ref="DESIGN.md §4 C08"),
 }
 
 NOT_YET = "check not built yet in this round (see DESIGN.md §4 for the planned structural rules)"
